@@ -1,13 +1,13 @@
 """T17: cirbo/synthesis/circuit_search.py, class CircuitFinderSat  ->  Generated/SearchEncGen.v
 
-Statement-by-statement translation of the ENCODER of exact synthesis (and of the decoder's variable reads): every
-method of COVERED becomes `gen_<name>` over the vocabulary of Model/Search.v (structured variables, literals =
+Statement-by-statement translation of the ENCODER and the DECODER of exact synthesis: every method of COVERED becomes `gen_<name>` over the vocabulary of Model/Search.v (structured variables, literals =
 (sign, var), clauses) and the fixed prelude Model/SearchPy.v.  Proofs/SearchEncGen*.v prove each generated function
 equal to the hand model (encode / default_cnf / cons_clauses / check_constraint ...), so an edit of a covered body
 changes a generated definition and breaks an equality lemma.  T3 (t3_search.py) regenerates the tables; the
 process pool / time limit / database part of find_circuit is not translated.  Anything outside the grammar raises
 TranslatorError (the check fails closed).  The translator knows no method of the class by name except through
-COVERED (which selects what must translate), ROOT_PARAM_TYPES and the two constructor idioms below.
+COVERED (which selects what must translate), ROOT_PARAM_TYPES (a List[int] parameter of a method that no
+translated method calls: ints or literals) and the two constructor idioms below.
 
 The object.  `finder` is the record of the attributes that __init__ assigns (`self.<a> = e`, in order), without the
 IDPool (see below); `set_<a>` are its functional updates.  A method that appends to `self._cnf`, assigns an
@@ -40,6 +40,9 @@ Grammar.
            | for <target> in <iterable>: <stmts>         (no for-else; `return` not inside a loop)
            | self._cnf.append(<clause>) | self._cnf.extend(<clauses>) | self.<method>(<args>)
            | <local list>.append(<expr>)                 (a list created by `[]` in the same function, never aliased)
+           | <c>.add_gate(Gate(l, t[, (ops)])) | <c>.mark_as_output(l)   for a local <c> = Circuit() (never aliased):
+                                                         Model/Circuit.add_gate / mark_as_output, the hand model of the
+                                                         Circuit API (parameter order checked in circuit.py / gate.py)
   <expr> ::= names, True / False / None, natural literals, self.<attr>, self.<fm attr>.input_size / .output_size,
            <fm>.get_model_truth_table(), self._cnf.clauses, <op>.value, DontCare (only in == / !=),
            a + b, a * b, a // k, a % k (k a positive literal), 1 << a, a >> b, a & b, a - b (only inside a shift count),
@@ -50,7 +53,10 @@ Grammar.
            a if c else b, l[i], [a, ...], [e for t in l], (e for t in l) bound to a name that the next statement
            consumes once, all(<generator>), len, int, bool, list, min, max, range(a[, b]),
            itertools.combinations(l, 2), itertools.product(range(k), repeat=2 | 3), <gate type>.operator(a, b)
-           (Generated/GateTypes.operator_of), calls of translated methods (positional / keyword arguments).
+           (Generated/GateTypes.operator_of), calls of translated methods (positional / keyword arguments),
+           decoder: Circuit(), gate type constants imported from cirbo.core.circuit, string literals, s + t on
+           strings, str(i) / str(<Optional int>) / str(s), (s, t) as a sequence of labels, <Optional int> in <list>,
+           _get_GateType_by_tt(l) (= tt_to_gate_type of T3, whose grammar check is re-run; KeyError unless len 4).
   Truth tests: bool; int (nonzero); a TriValue / operator value (bool() raises on DontCare); an Optional[GateType]
   (GateType defines neither __bool__ nor __len__: checked in gate.py).
 
